@@ -114,6 +114,9 @@ fn run_worker(page_pool: PagePool, command_rx: Receiver<IoPacket>) {
                     }
                 };
 
+                #[cfg(feature = "verif-hooks")]
+                let result = super::verif_faults::apply(&command, result);
+
                 let complete = CompleteIo { command, result };
                 let _ = completion_sender.send(complete);
             }
